@@ -15,9 +15,10 @@ BOUNDS = {"all": "field sequences of 2..4 members from {uint8,uint32,int24,char[
 
 POOL = [("u8", G.U8, None), ("u32", G.U32, None), ("i24", G.I24, None), ("c3", G.arr(G.CHAR, 3), None), ("h2", G.arr(G.U16, 2), None),
         ("inner", G.INNER, None), ("E", G.E16, None), ("b4", G.U16, 4), ("b12", G.U16, 12), ("str", G.arr(G.CHAR, None), None),
-        ("dyn", G.arr(G.U8, "X"), None), ("ptr", ["ptr", G.U16], None), ("u64", G.U64, None)]
+        ("dyn", G.arr(G.U8, "X"), None), ("ptr", ["ptr", G.U16], None), ("u64", G.U64, None), ("anon", G.ANON, None)]
 CURATED = [["u8", "b4", "b12", "u32"], ["u32", "str", "u8", "u64"], ["u8", "dyn", "h2", "i24"], ["inner", "u8", "u64", "c3"],
-           ["b4", "b12", "b4", "u8"], ["u8", "ptr", "E", "u8"], ["u64", "u8"], ["u8", "u64", "u8", "u8"]]
+           ["b4", "b12", "b4", "u8"], ["u8", "ptr", "E", "u8"], ["u64", "u8"], ["u8", "u64", "u8", "u8"],
+           ["u8", "anon", "u8"], ["anon", "u32"], ["u8", "anon", "b4", "b12"], ["u32", "anon", "u8", "u64"]]
 
 
 def build_T(names):
@@ -28,7 +29,7 @@ def build_T(names):
         if n == "dyn":
             first_int = bool(fields) and fields[0][1][0] == "int" and fields[0][2] is None
             T = ["arr", G.U8, G.expr_count(first_int)]
-        fields.append([f"f{i}", T, bits])
+        fields.append([None if n == "anon" else f"f{i}", T, bits])
     return ["struct", "test", fields, False]
 
 
@@ -52,7 +53,7 @@ def make(case):
         cs1, one = H.load(T, cfg)
         # the same members added step by step to an empty structure of a second cstruct
         cs2 = cstruct(endian=cfg["endian"], pointer=cfg.get("pointer", "uint64"))
-        pre = ["struct", "holder", [[f[0], f[1], None] for f in T[2] if f[1][0] in ("enum", "struct") or
+        pre = ["struct", "holder", [[f[0] or "anonholder", f[1], None] for f in T[2] if f[1][0] == "enum" or (f[1][0] == "struct" and not f[1][3]) or
                                     (f[1][0] in ("arr", "ptr") and f[1][1][0] in ("enum", "struct"))], False]
         named = []
         R.collect_named(pre, named)
@@ -72,12 +73,12 @@ def make(case):
                 j += 1
             batch = T[2][i:j]
             split.append(j - i)
-            tdef = ["struct", "tmp%d" % i, [[f[0], f[1], f[2]] for f in batch], False]
+            tdef = ["struct", "tmp%d" % i, [[f[0], f[1], f[2]] for f in batch], False]   # anonymous members stay anonymous
             # member types must belong to cs2: define a throw-away struct there and take its field types
             cs2.load("struct tmp%d {\n%s\n};" % (i, R.render_fields(tdef[2])), compiled=False, align=cfg["align"])
             ftypes = [f.type for f in getattr(cs2, "tmp%d" % i).__fields__]
             if len(batch) == 1:
-                inc.add_field(batch[0][0], ftypes[0], bits=batch[0][2])
+                inc.add_field(batch[0][0], ftypes[0], bits=batch[0][2])   # name None = anonymous member
             else:
                 with inc.start_update():
                     for (fname, FT, bits), ft in zip(batch, ftypes):
@@ -168,7 +169,44 @@ def make_selfref(case):
     return run
 
 
+def make_flags(case):
+    """#[nocompile] applies to the definition it precedes only."""
+    cfg = case["cfg"]
+
+    def run(ctx):
+        from dissect.cstruct import cstruct
+        cs = cstruct(endian=cfg["endian"])
+        cs.load(case["text"], compiled=True, align=cfg["align"])
+        for name, want in case["expect"].items():
+            t = cs.resolve(name)
+            ctx.check(f"{name}: reader kind as requested ({'compiled' if want else 'interpreted'})", bool(t.__compiled__) == want,
+                      f"{t.__compiled__}")
+        one = cstruct(endian=cfg["endian"])
+        one.load(case["plain"], compiled=True, align=cfg["align"])
+        data = ctx.bytes("b", 24)
+        for name in case["expect"]:
+            a, b = cs.resolve(name), one.resolve(name)
+            ra, rb = a.read(ctx.stream(data)), b.read(ctx.stream(data))
+            ctx.check(f"{name}: same values as without the flags", R.bytes_eq(ra.dumps(), rb.dumps()))
+    return run
+
+
+FLAG_TEXTS = [
+    ("#[nocompile]\ntypedef struct { uint8 a; } x_t;\nstruct node { uint16 v; node *next; };\n",
+     "typedef struct { uint8 a; } x_t;\nstruct node { uint16 v; node *next; };\n", {"x_t": False, "node": True}),
+    ("#[nocompile]\nstruct first { uint8 a; uint16 b; };\nstruct second { uint32 c; };\n",
+     "struct first { uint8 a; uint16 b; };\nstruct second { uint32 c; };\n", {"first": False, "second": True}),
+    ("struct first { uint8 a; };\n#[nocompile]\nstruct second { uint32 c; struct { uint8 x; } in; };\nstruct third { uint8 z; };\n",
+     "struct first { uint8 a; };\nstruct second { uint32 c; struct { uint8 x; } in; };\nstruct third { uint8 z; };\n",
+     {"first": True, "second": False, "third": True}),
+]
+
+
 def cases(tier, seed):
+    for i, (text, plain, expect) in enumerate(FLAG_TEXTS):
+        for e in "<>":
+            yield {"label": f"config-flag scope {i}", "text": text, "plain": plain, "expect": expect, "cfg": {"endian": e, "align": e == ">"},
+                   "make": "make_flags"}
     cfgs = [{"endian": e, "align": a, "compiled": c, "pointer": "uint64"} for e in "<>" for a in (False, True) for c in (False, True)]
     seqs = [list(c) for c in CURATED]
     names = [p[0] for p in POOL]
